@@ -88,6 +88,7 @@ type scn struct {
 	flow       int                 // 0 full handler 1 accessor sequence
 	undefined  map[string]bool     // named by a requirement but absent from securityDefinitions (a typo or a rename in the description)
 	front      string              // flow 2: what the application middleware does before the operation executor: A = Authorize, R = ResetAuth
+	door       int                 // which handler constructor of the Context: 0 APIHandler 1 APIHandlerSwaggerUI 2 APIHandlerRapiDoc 3 RoutesHandler
 	reauth     bool                // flow 1: after a successful Authorize the caller drops the result (ResetAuth) and authorizes again
 }
 
@@ -109,7 +110,7 @@ func (s *scn) String() string {
 		}
 		outs = append(outs, fmt.Sprintf("%s%s=%s(granted %v)", n, reg, []string{"n/a", "accept", "accept-nil", "reject", "reject+principal"}[s.outcome[n]], s.granted[n]))
 	}
-	return fmt.Sprintf("security=%s global=%v outcomes=[%s] authorizer=%d broken=%d flow=%d front=%q reauth=%v", strings.Join(alts, " OR "), s.global, strings.Join(outs, " "), s.authz, s.broken, s.flow, s.front, s.reauth)
+	return fmt.Sprintf("security=%s global=%v outcomes=[%s] authorizer=%d broken=%d flow=%d front=%q reauth=%v door=%d", strings.Join(alts, " OR "), s.global, strings.Join(outs, " "), s.authz, s.broken, s.flow, s.front, s.reauth, s.door)
 }
 
 func generate(t *kernel.Tape) *scn {
@@ -160,6 +161,7 @@ func generate(t *kernel.Tape) *scn {
 	if s.flow == 1 && s.cancelAt == 0 {
 		s.reauth = t.Bool(3, "authorize-again-after-reset")
 	}
+	s.door = t.Weighted("handler-constructor", 3, 1, 1, 1)
 	return s
 }
 
@@ -290,11 +292,23 @@ func (prop) Run(t *testing.T, tape *kernel.Tape, sc kernel.Scenario) *kernel.Res
 	u.RegisterOperation("POST", "/secure/{id}", &simapi.Handler{W: world, Op: "secured"})
 	u.RegisterOperation("GET", "/open", &simapi.Handler{W: world, Op: "open"})
 	ctx := middleware.NewContext(doc, u, nil)
-	handler := ctx.APIHandler(nil)
+	// the same pipeline behind each of the doors the Context offers
+	mkHandler := func(b middleware.Builder) http.Handler {
+		switch s.door {
+		case 1:
+			return ctx.APIHandlerSwaggerUI(b)
+		case 2:
+			return ctx.APIHandlerRapiDoc(b)
+		case 3:
+			return ctx.RoutesHandler(b)
+		}
+		return ctx.APIHandler(b)
+	}
+	handler := mkHandler(nil)
 	if s.flow == 2 {
 		// an application middleware in front of the operation executor that looks at the principal
 		// (for logging, say) and does not act on a refusal: refusing is the secure wrapper's job
-		handler = ctx.APIHandler(func(next http.Handler) http.Handler {
+		handler = mkHandler(func(next http.Handler) http.Handler {
 			return http.HandlerFunc(func(w http.ResponseWriter, r *http.Request) {
 				if route, rr, ok := ctx.RouteInfo(r); ok {
 					r = rr
